@@ -121,3 +121,13 @@ fn k1_other_unit() {
     let hv = HeaderValue::from_static("bytes=12");
     assert!(parse(Some(&hv), len) == ResolvedRanges::None);
 }
+
+#[kani::proof]
+#[kani::unwind(12)]
+#[kani::stub(<u64 as FromStr>::from_str, stub_from_str)]
+fn k1_leading_ows() { check("bytes= \t1-2", &[Form::Closed]); }
+
+#[kani::proof]
+#[kani::unwind(16)]
+#[kani::stub(<u64 as FromStr>::from_str, stub_from_str)]
+fn k1_two_from() { check("bytes=1-,2-3", &[Form::From, Form::Closed]); }
